@@ -3,6 +3,7 @@ package main
 import (
 	"encoding/json"
 	"fmt"
+	"os"
 	"path/filepath"
 	"regexp"
 	"strings"
@@ -252,8 +253,12 @@ func runConc(c *Case, pool simrt.PoolConfig) *concObs {
 		}
 		cfg.PoolReplay = cc.Sched.PoolReplay
 	}
-	raceDelta() // discard anything printed before
+	raceDelta()       // discard anything printed before
+	simrt.TraceDump() // development aid, see SIMRT_TRACE
 	obs.report = simrt.Run(cfg, fns...)
+	if f := os.Getenv("SIMRT_TRACE"); f != "" {
+		os.WriteFile(fmt.Sprintf("%s.%d.%d", f, os.Getpid(), c.Seed), []byte(strings.Join(simrt.TraceDump(), "\n")), 0o644)
+	}
 	obs.race = raceDelta()
 	return obs
 }
